@@ -496,7 +496,7 @@ Proof. vm_compute. done. Qed.
 Example ex_success_renew :
   let a := attempt true KRenew (mk_env true true true (BBehind true) None true true true true 5 8) re_ok all_delivered h3 r3 t3 in
   ro_ok (ao_renter a) = true ∧ ho_ok (ao_host a) = true ∧
-  ho_calls (ao_host a) = [CFund 2; CUpdate true; CTxSet true; CPoolSet true; CRecord; CBroadcast].
+  ho_calls (ao_host a) = [CElement true; CFund 2; CUpdate true; CTxSet true; CPoolSet true; CRecord; CBroadcast].
 Proof. vm_compute. done. Qed.
 
 Example ex_success_refresh :
@@ -538,3 +538,10 @@ Example ex_returns_tip_basis :
   match sent_final (ho_sent o) with Some f => f_basis f = 8%N | None => False end.
 Proof. vm_compute. repeat split; discriminate. Qed.
 
+(** the element lookup fails (unconfirmed formation, store error): nothing was reserved yet,
+    the hypothesis of [host_failure_releases] at this failure point *)
+Example ex_element_lookup_fails : ∀ k, is_renewal k = true →
+  let e := mk_env true true false BSame None true true true true 5 5 in
+  let o := host_run true k e h3 (Some rq3) None in
+  ho_ok o = false ∧ ho_calls o = [CElement false] ∧ elements (w_locked (h_wallet (ho_host o))) = [].
+Proof. intros k Hk. destruct k; try discriminate Hk; vm_compute; done. Qed.
